@@ -32,6 +32,7 @@ import (
 	vaultApp "github.com/oasisprotocol/oasis-core/go/consensus/cometbft/apps/vault"
 	tmbeacon "github.com/oasisprotocol/oasis-core/go/consensus/cometbft/beacon"
 	tmroothash "github.com/oasisprotocol/oasis-core/go/consensus/cometbft/roothash"
+	upgrade "github.com/oasisprotocol/oasis-core/go/upgrade/api"
 )
 
 // ReplicaConfig is the LOCAL configuration of one replica. Nothing in it may
@@ -58,6 +59,9 @@ type ReplicaConfig struct {
 	AppOrderSeed uint64
 	// Checkpointer enables the checkpointer goroutine.
 	Checkpointer bool
+	// Upgrade, when set, gives the server an upgrade backend with this preloaded consensus
+	// upgrade (NOT local configuration: it must be the same on every replica). nil = no upgrader.
+	Upgrade *UpgradeSpec
 }
 
 // Replica is one ABCI application server with all real apps registered.
@@ -213,7 +217,11 @@ func (r *Replica) boot() (err error) {
 		pr.PruneInterval = cfg.PruneInterval
 	}
 	r.ctx, r.cancel = context.WithCancel(context.Background())
-	srv, err := abci.NewApplicationServer(r.ctx, nil, &abci.ApplicationConfig{
+	var upgrader upgrade.Backend
+	if cfg.Upgrade != nil {
+		upgrader = &mockUpgrader{spec: *cfg.Upgrade}
+	}
+	srv, err := abci.NewApplicationServer(r.ctx, upgrader, &abci.ApplicationConfig{
 		DataDir:                   cfg.DataDir,
 		StorageBackend:            cfg.Backend,
 		Pruning:                   pr,
